@@ -945,6 +945,14 @@ func c04Emit(e *Emitter, cfg *c04Cfg, r *c04Result, buckets ...string) {
 		if o.in != nil && o.in.length > 0 {
 			bytesMoved += o.in.length
 		}
+		if o.wire != nil && o.wire.length > 0 {
+			bytesMoved += o.wire.length
+		}
+		for _, d := range o.deliv {
+			if d.length > 0 {
+				bytesMoved += d.length
+			}
+		}
 	}
 	coq := fmt.Sprintf("Case %s\n   [%s]\n   [%s]", cfg.coq(), strings.Join(es, "; "), strings.Join(os, ";\n    "))
 	if r.completed > 0 {
@@ -955,7 +963,7 @@ func c04Emit(e *Emitter, cfg *c04Cfg, r *c04Result, buckets ...string) {
 	if r.blockwise {
 		buckets = append(buckets, "blockwise")
 	}
-	weight := 1 + len(r.evs)/6 + bytesMoved/1500
+	weight := 1 + len(r.evs)/6 + bytesMoved/800
 	e.AddW(coq, c04Desc(cfg, r.evs), r.blockwise, weight, buckets...)
 }
 
@@ -1016,8 +1024,8 @@ var c04FlavourNames = []string{"do-post-upload", "do-get-download", "do-put-both
 
 func runC04(a runArgs) error {
 	e := NewEmitter("C04", "Blockwise.Run")
-	e.ShardSize = 60
-	e.MaxBytes = 70000
+	e.ShardSize = 260
+	e.MaxBytes = 300000
 	e.Rule = "a case = configuration (SZX/max message size of both sides, exchanges, resources) + explicit event script (start/deliver/dup/drop/replay/bump/timeout/expire) run on two real blockwise.BlockWise instances joined by a marshalling relay; distinct = distinct configuration+script; non-trivial = at least one wire message carried a Block1/Block2 option (a block-wise transfer actually took place)."
 	if a.only != "" {
 		cfg, evs, err := c04ParseDesc(a.only)
@@ -1040,7 +1048,10 @@ func runC04(a runArgs) error {
 		}
 	}
 	pairs = append(pairs, pair{6, 1152, 6, 1152}, pair{5, 1152, 6, 1152}, pair{6, 1152, 3, 1152}, pair{3, 1152, 4, 1152},
-		pair{7, 1152, 7, 1152}, pair{7, 2048, 7, 2048}, pair{7, 4096, 7, 4096}, pair{7, 2048, 6, 1152}, pair{6, 1152, 7, 4096}, pair{7, 4096, 7, 1152})
+		pair{7, 1152, 7, 1152}, pair{7, 2048, 7, 2048}, pair{7, 4096, 7, 4096}, pair{7, 2048, 6, 1152}, pair{6, 1152, 7, 4096})
+	if thorough {
+		pairs = append(pairs, pair{7, 4096, 7, 1152})
+	}
 	if thorough {
 		for x := 0; x <= 7; x++ {
 			for y := 0; y <= 7; y++ {
@@ -1075,8 +1086,18 @@ func runC04(a runArgs) error {
 				sizes = append(sizes, buf-1, buf, buf+1, 2*buf, 2*buf+1, 3*buf+5)
 			}
 		}
+		if s >= 512 && !thorough {
+			// quick: the block boundaries only
+			sizes = []int{0, s, s + 1, 2*s + 1, 3*s + 5}
+			if p.a == 7 && p.b == 7 {
+				buf := min2(p.ma, p.mb) / 1024 * 1024
+				if buf > 1024 {
+					sizes = []int{s, s + 1, buf, buf + 1, 2*buf + 1}
+				}
+			}
+		}
 		for fl := 0; fl <= 6; fl++ {
-			if s >= 1024 && !thorough && fl >= 5 {
+			if s >= 512 && !thorough && fl >= 5 {
 				continue
 			}
 			for _, n := range sizes {
